@@ -128,6 +128,17 @@ def tool_case(args):
                 rp = H.run_validate_tool(content=text, schema=name, fix=False, profile=prof)
                 if rp.get("status") == "success" and (rp.get("canonical") != plain or _repair_entries(rp.get("repairs"))):
                     an.append(("fix-off", f"fix=false, profile={prof}: values were repaired"))
+            # one long-lived tool instance (how the server holds it): fix off / on / off / on with the same payload — what a call
+            # repairs and logs must not depend on the calls the instance served before
+            import asyncio as _aio
+            from octave_mcp.mcp.validate import ValidateTool as _VT
+            inst = _VT()
+            seq = [_aio.run(inst.execute(content=text, schema=name, fix=fx)) for fx in (False, True, False, True)]
+            if all(r.get("status") == "success" for r in seq):
+                if (seq[2].get("canonical"), _repair_entries(seq[2].get("repairs"))) != (c0, []):
+                    an.append(("fix-off", "same tool instance: fix=false AFTER a fix=true call on the same payload returns repaired values / REPAIR entries"))
+                if (seq[3].get("canonical"), _repair_entries(seq[3].get("repairs"))) != (c1, log):
+                    an.append(("log", "same tool instance: the second fix=true call on the same payload returns a different canonical text / repair log than the first"))
             r2 = H.run_validate_tool(content=c1, schema=name, fix=True)
             c2, log2 = r2.get("canonical"), _repair_entries(r2.get("repairs"))
         elif entry == "write":
